@@ -110,8 +110,8 @@ fn shuttle_schedule_text(s: &shuttle::scheduler::Schedule) -> String {
 
 fn c20(r: &mut Report) {
     let mut rng = Rng::new(r.seed ^ 0xC20);
-    let n_lock = if r.quick() { 60 } else { 1500 };
-    let n_dash = if r.quick() { 60 } else { 1500 };
+    let n_lock = if r.quick() { 160 } else { 2000 };
+    let n_dash = if r.quick() { 240 } else { 3000 };
     let n_hist = if r.quick() { 300 } else { 20_000 };
     let enum_cap = if r.quick() { 6_000 } else { 150_000 };
     let sample_iters = if r.quick() { 400 } else { 10_000 };
@@ -133,6 +133,11 @@ fn c20(r: &mut Report) {
         let p = plot::gen_prog(&mut rng, 1 + i % 2);
         let mode = [0usize, 0, 8, 2][i % 4];
         items.push(Item::Lock(format!("gen/{i}"), p, mode, rng.next()));
+    }
+    for (name, p) in dash::corpus() {
+        for mode in [0usize, 8, 2] {
+            items.push(Item::Dash(format!("corpus:{name}"), p.clone(), mode, rng.next()));
+        }
     }
     for i in 0..n_dash {
         let p = dash::gen_prog(&mut rng, 1 + i % 3);
